@@ -59,10 +59,8 @@ def reset_settings() -> None:
     s.logger = _LOGGER
     s._factory_manager = _FM
     np.seterr(all="ignore")
-    v = vars(s)
-    # (a tree under test may keep further private attributes on the settings object: only the documented ones are pinned)
-    assert {"float_type", "decimals", "atol", "rtol", "alias", "logger", "_factory_manager"} <= set(v), v
-    assert v["float_type"] is np.float64 and v["decimals"] == 3 and v["alias"] == "fl"
+    # (read back as a user would: a tree under test may store its settings differently - properties, private attributes)
+    assert s.float_type is np.float64 and s.decimals == 3 and s.alias == "fl", (s.float_type, s.decimals, s.alias)
     if getattr(s, "debugging", False):  # however the tree under test stores its debug mode, leave it off
         s.debugging = False
 
